@@ -503,83 +503,140 @@ def r18_3(ctx, prog, crate):
     D = ("payload", "Some", 0, S.local(finds[0].dest["l"]))
     ctx.check(_derives_from_string(b, S, finds[0].args[0], ts), "R18.3", ["format_f64", "find-on-the-string"], "`find('.')` is not applied to the digit string", finds[0].line())
     F = ("call", "core::num::saturating_sub", (("arg", 2, ()), D))
-    fm = [c for c in b.live_calls() if c.callee.endswith("Iterator::find_map")]
     gets = [c for c in b.live_calls() if c.callee == "core::str::get"]
-    if not ctx.check(len(fm) == 1 and len(gets) == 1, "R18.3", ["format_f64", "fraction-scan"], "find_map sites: %d, str::get sites: %d" % (len(fm), len(gets)), b.where(0)):
+    # how the trailing zeros of the window are found - four spellings of the same search, each with its own arithmetic:
+    #   zeros-from-end  Z = window.bytes().rev().enumerate().find_map(|(i, b)| (b != '0').then(i))  /  .rev().position(|b| b != '0')
+    #   last-non-zero   L = window.bytes().rposition(|b| b != '0')
+    #   kept-length     K = window.trim_end_matches('0').len()
+    def last_is(c, name, trait_word="Iterator"):
+        return c.callee.rsplit("::", 1)[-1] == name and trait_word in c.callee
+    cands = [("zeros-from-end", c) for c in b.live_calls() if last_is(c, "find_map") or (last_is(c, "position") and not last_is(c, "rposition"))] + \
+        [("last-non-zero", c) for c in b.live_calls() if last_is(c, "rposition")] + \
+        [("kept-length", c) for c in b.live_calls() if c.callee.rsplit("::", 1)[-1] == "trim_end_matches"]
+    if not ctx.check(len(cands) == 1 and len(gets) == 1, "R18.3", ["format_f64", "fraction-scan"], "searches for the trailing zeros: %d, str::get sites: %d" % (len(cands), len(gets)), b.where(0)):
         return
-    Z = ("payload", "Some", 0, S.local(fm[0].dest["l"]))
+    kind, fm = cands[0]
     want_range = ("adt", "std::ops::Range", "Range", (add(D, ("int", 1)), add(add(D, ("int", 1)), F)))
     got_range = S.op(gets[0].args[1])
     ctx.check(got_range == want_range and _derives_from_string(b, S, gets[0].args[0], ts), "R18.3", ["format_f64", "fraction-window"],
               "the fraction window is %s, expected str[dot+1 .. dot+1+saturating_sub(sig_figs, dot)]" % show(got_range), gets[0].line(), detail=show(got_range))
-    # the scan walks the window's bytes from the end
+    G = ("payload", "Some", 0, S.local(gets[0].dest["l"]))
+    FS, FE = add(D, ("int", 1)), add(add(D, ("int", 1)), F)
+    # the search runs over the window's bytes (from the end), and tests each byte against '0'
     chain = []
-    e = S.op(fm[0].args[0])
+    e = S.op(fm.args[0])
     while e[0] == "site":
         chain.append(e[1].rsplit("::", 1)[-1])
         e = e[3][0] if len(e) > 3 and e[3] else ("opaque", "")
-    G = ("payload", "Some", 0, S.local(gets[0].dest["l"]))
-    ctx.check(chain == ["enumerate", "rev", "bytes"] and e == G, "R18.3", ["format_f64", "scan-from-the-end"],
-              "find_map runs over %s of %s, expected window.bytes().rev().enumerate()" % (chain, show(e)), fm[0].line())
-    # closure: Some(i) iff byte != b'0'
+    want_chain = {"zeros-from-end": (["enumerate", "rev", "bytes"], ["rev", "bytes"]), "last-non-zero": (["bytes"],), "kept-length": ([],)}[kind]
+    if kind == "zeros-from-end" and last_is(fm, "position"):
+        want_chain = (["rev", "bytes"],)
+    elif kind == "zeros-from-end":
+        want_chain = (["enumerate", "rev", "bytes"],)
+    ctx.check(chain in [list(x) for x in want_chain] and e == G, "R18.3", ["format_f64", "scan-from-the-end"],
+              "the search runs over %s of %s, expected the window's bytes from the end" % (chain, show(e)), fm.line())
     cl = [x for x in prog.children(b) if x.kind == "Closure"]
-    if ctx.check(len(cl) == 1, "R18.3", ["format_f64", "scan-closure"], "closures: %d" % len(cl), b.where(0)):
+    if kind == "kept-length":
+        ctx.check(len(fm.args) == 2 and fm.args[1].get("k") == "const" and fm.args[1]["c"].get("ty") == "char" and fm.args[1]["c"].get("d", "").strip("'") == "0" and not cl,
+                  "R18.3", ["format_f64", "scan-closure", "tests-byte-against-'0'"], "trim_end_matches is not given the character '0'", fm.line())
+    elif ctx.check(len(cl) == 1, "R18.3", ["format_f64", "scan-closure"], "closures: %d" % len(cl), b.where(0)):
         c = cl[0]
         ctx.saw(c)
-        SC = Sym(c)
-        hit = None
-        for bi, t in c.switches():
-            e = SC.op(t["discr"])
-            if e == ("cmp", "Lt", ("int", 48), ("arg", 2, (1,))):  # `b > b'0'`: same test on a window of decimal digits
-                e = ("cmp", "Ne", e[2], e[3])
-            if e[0] == "cmp" and e[1] in ("Ne", "Eq") and {e[2], e[3]} == {("arg", 2, (1,)), ("int", 48)}:
-                arms, otherwise = tables.arm_targets(t)
-                f_t = arms.get(0, otherwise)
-                t_t = otherwise if 0 in arms else None
-                hit = (bi, e[1], t_t, f_t)
-        if ctx.check(hit is not None and hit[2] is not None, "R18.3", ["format_f64", "scan-closure", "tests-byte-against-'0'"], "no `byte != b'0'` test in the scan closure", c.where(0)):
-            bi, op, t_t, f_t = hit
-            nz, z = (t_t, f_t) if op == "Ne" else (f_t, t_t)
+        if last_is(fm, "find_map"):
+            SC = Sym(c)
+            hit = None
+            for bi, t in c.switches():
+                e = SC.op(t["discr"])
+                if e == ("cmp", "Lt", ("int", 48), ("arg", 2, (1,))):  # `b > b'0'`: same test on a window of decimal digits
+                    e = ("cmp", "Ne", e[2], e[3])
+                if e[0] == "cmp" and e[1] in ("Ne", "Eq") and {e[2], e[3]} == {("arg", 2, (1,)), ("int", 48)}:
+                    arms, otherwise = tables.arm_targets(t)
+                    f_t = arms.get(0, otherwise)
+                    t_t = otherwise if 0 in arms else None
+                    hit = (bi, e[1], t_t, f_t)
+            if ctx.check(hit is not None and hit[2] is not None, "R18.3", ["format_f64", "scan-closure", "tests-byte-against-'0'"], "no `byte != b'0'` test in the scan closure", c.where(0)):
+                bi, op, t_t, f_t = hit
+                nz, z = (t_t, f_t) if op == "Ne" else (f_t, t_t)
 
-            def ret_of(start, other):
-                out = []
-                for y in tables.exclusive_blocks(c, start, [other]):
-                    for s in c.blocks[y]["stmts"]:
-                        if s["k"] == "assign" and s["p"]["l"] == 0 and not s["p"]["proj"]:
-                            out.append(SC.rv(s["rv"]))
-                return out
-            rn, rz = ret_of(nz, z), ret_of(z, nz)
-            ok = len(rn) == 1 and rn[0][0] == "adt" and rn[0][2] == "Some" and rn[0][3] == (("arg", 2, (0,)),) and len(rz) == 1 and rz[0][0] == "adt" and rz[0][2] == "None"
-            ctx.check(ok, "R18.3", ["format_f64", "scan-closure", "first-nonzero-from-end"], "closure returns %s for a non-'0' byte and %s for '0' (expected Some(index) / None)" %
-                      ([show(x) for x in rn], [show(x) for x in rz]), c.where(bi))
-    # truncate sites: truncate(dot) when no fraction digit may stay or all of them are '0'; truncate(end - trailing zeros) otherwise
-    want_cut = add(add(add(D, ("int", 1)), F), Z, -1)
+                def ret_of(start, other):
+                    out = []
+                    for y in tables.exclusive_blocks(c, start, [other]):
+                        for s_ in c.blocks[y]["stmts"]:
+                            if s_["k"] == "assign" and s_["p"]["l"] == 0 and not s_["p"]["proj"]:
+                                out.append(SC.rv(s_["rv"]))
+                    return out
+                rn, rz = ret_of(nz, z), ret_of(z, nz)
+                ok = len(rn) == 1 and rn[0][0] == "adt" and rn[0][2] == "Some" and rn[0][3] == (("arg", 2, (0,)),) and len(rz) == 1 and rz[0][0] == "adt" and rz[0][2] == "None"
+                ctx.check(ok, "R18.3", ["format_f64", "scan-closure", "first-nonzero-from-end"], "closure returns %s for a non-'0' byte and %s for '0' (expected Some(index) / None)" %
+                          ([show(x) for x in rn], [show(x) for x in rz]), c.where(bi))
+        else:
+            # position / rposition predicate: the byte is not '0' (b != b'0'; b > b'0' is the same test on decimal digits)
+            from lib.patheval import PathEval
+            from lib.symexpr import canon_cmp
+            cs = PathEval(c).run()
+            okp = False
+            if cs and len(cs) == 1 and not cs[0].conds:
+                atom, pol = canon_cmp(cs[0].ret, unsigned=True)
+                okp = atom is not None and ((atom[0] == "Eq" and set(atom[1:]) == {("int", 48), ("arg", 2, ())} and pol is False) or
+                                            (atom == ("Lt", ("int", 48), ("arg", 2, ())) and pol is True))
+            ctx.check(okp, "R18.3", ["format_f64", "scan-closure", "tests-byte-against-'0'"], "the search predicate is not `byte != b'0'`", c.where(0))
+    # where to cut: at the dot when no fraction digit may stay or all of them are '0'; after the last non-'0' digit otherwise
+    if kind == "kept-length":
+        Z = S.local(b.call_at(fm.target).dest["l"]) if fm.target is not None and b.call_at(fm.target) is not None and b.call_at(fm.target).callee.rsplit("::", 1)[-1] == "len" else None
+        lens_ = [c_ for c_ in b.live_calls() if c_.callee.rsplit("::", 1)[-1] == "len" and any(z.kind == "call" and z.b == fm.bb for z in b.prov.op_src(c_.args[0]))]
+        Z = S.local(lens_[0].dest["l"]) if len(lens_) == 1 else None
+        want_cut = add(FS, Z) if Z is not None else None
+    else:
+        Z = ("payload", "Some", 0, S.local(fm.dest["l"]))
+        want_cut = add(FE, Z, -1) if kind == "zeros-from-end" else add(add(FS, Z), ("int", 1))
     sw_f = sw_z = None
+    from lib.symexpr import bool_switch
     for bi, t in b.switches():
         e = S.op(t["discr"])
         if e[0] == "cmp" and e[1] == "Eq" and {e[2], e[3]} == {F, ("int", 0)}:
             arms, otherwise = tables.arm_targets(t)
             sw_f = (arms.get(0, otherwise), otherwise)          # (false target, true target)
-        if e == ("discr", S.local(fm[0].dest["l"])):
+        if kind != "kept-length" and e == ("discr", S.local(fm.dest["l"])):
             arms, otherwise = tables.arm_targets(t)
             sw_z = (arms.get(1, otherwise), arms.get(0, otherwise))  # (Some, None)
-    if not ctx.check(sw_f is not None and sw_z is not None, "R18.3", ["format_f64", "cut-cases"], "missing `fract_digits == 0` test or match on the scan result", b.where(0)):
+        if kind == "kept-length" and Z is not None:
+            bs = bool_switch(b, S, bi)
+            if bs is not None and bs[0][0] == "Eq" and set(bs[0][1:]) == {("int", 0), Z}:
+                sw_z = (bs[2], bs[1])                            # (some digit kept, none kept)
+    if not ctx.check(sw_f is not None and sw_z is not None and want_cut is not None, "R18.3", ["format_f64", "cut-cases"], "missing `fract_digits == 0` test or decision on the search result", b.where(0)):
         return
     zero_region = tables.exclusive_blocks(b, sw_f[1], [sw_f[0]])
     none_region = tables.exclusive_blocks(b, sw_z[1], [sw_z[0]])
     some_region = tables.exclusive_blocks(b, sw_z[0], [sw_z[1]])
     seen = {"dot@no-fraction-digits": 0, "dot@all-zero": 0, "end-minus-zeros": 0}
+    # every (value, place it was decided) that reaches a truncate: the argument itself, or - when one truncate gets a length
+    # chosen on several arms - each arm's value where it is assigned
+    sites = []
     for c in trunc:
-        e = S.op(c.args[1])
-        if e == D and c.bb in zero_region:
+        a = c.args[1]
+        l = a["p"]["l"] if a.get("k") in ("copy", "move") and not a["p"]["proj"] else None
+        for _ in range(3):
+            d_ = b.prov.defs.get(l, []) if l is not None else []
+            if len(d_) == 1 and d_[0][0] == "S" and d_[0][3]["rv"]["k"] == "use" and d_[0][3]["rv"]["o"].get("k") in ("copy", "move") and not d_[0][3]["rv"]["o"]["p"]["proj"]:
+                l = d_[0][3]["rv"]["o"]["p"]["l"]
+            else:
+                break
+        d_ = b.prov.defs.get(l, []) if l is not None else []
+        if len(d_) > 1 and all(x[0] == "S" and not x[3]["p"]["proj"] for x in d_):
+            for x in d_:
+                sites.append((S.rv(x[3]["rv"]), x[1], c))
+        else:
+            sites.append((S.op(a), c.bb, c))
+    for e, bb, c in sites:
+        if e == D and bb in zero_region:
             seen["dot@no-fraction-digits"] += 1
-        elif e == D and c.bb in none_region:
+        elif e == D and bb in none_region:
             seen["dot@all-zero"] += 1
-        elif e == want_cut and c.bb in some_region:
+        elif e == want_cut and bb in some_region:
             seen["end-minus-zeros"] += 1
         else:
             ctx.fail("R18.3", ["format_f64", "cut-position"], "truncate(%s) is neither truncate(dot) [no fraction digits kept / all kept digits are '0'] nor "
-                     "truncate(window_end - trailing_zeros) [otherwise]" % show(e), c.line())
+                     "the cut after the last non-'0' digit (%s) [otherwise]" % (show(e), show(want_cut)), c.line())
     ctx.check(all(v == 1 for v in seen.values()), "R18.3", ["format_f64", "three-cut-cases"], "cut cases present: %s (each expected once)" % seen, b.where(0), detail=seen)
 
 
